@@ -18,6 +18,13 @@ func (s *ClientCache) Heartbeat(instance string) {
 	return
 }
 
+// Track registers an instance that is not known yet as if it had just sent a heartbeat, so that
+// the state recorded for it times out like any other client's unless real heartbeats follow.
+// The last heartbeat of a known instance is left as it is.
+func (s *ClientCache) Track(instance string) {
+	s.clientHeartbeats.LoadOrStore(instance, time.Now())
+}
+
 func (s *ClientCache) Delete(instance string) {
 	s.clientHeartbeats.Delete(instance)
 }
